@@ -9,6 +9,7 @@ from sa.rules import align as A
 from sa.rules import call as C
 from sa.rules import cli as CLI
 from sa.rules import cli2 as C2
+from sa.rules import coord as CO
 from sa.rules import ctor as CT
 from sa.rules import det as D
 from sa.rules import falsy as FA
@@ -55,11 +56,12 @@ DET1_ACCEPTED = {
 }
 
 spec("C01", "Docstring round trip",
-     [TB.rule_table_style, N.rule_null2, det3("docstring", "emit.docstring", "docstring_parsers.parse_docstring")],
+     [TB.rule_table_style, N.rule_null2, named(CO.rule_coord, "rule_coord_docstring", anchors=("docstring_parsers.parse_docstring", "emit.docstring")),
+      det3("docstring", "emit.docstring", "docstring_parsers.parse_docstring")],
      "Necessary conditions decided on the source: (TABLE-style) per docstring style, every section header / line marker the emitter writes contains a "
      "detection token of that style, none of a style detected earlier, and is a header the style's scanner splits on; ARG/RETURN token tables are subsets of "
      "TOKENS. (NULL-2) the pending-parameter slot [None, {}] of the ReST parser cannot reach the name post-processing, which dereferences the name, without a "
-     "test of its name element (the 'documents only a return value' crash). (DET-3, scoped) no function on this property's code path writes state that outlives the call (module globals/objects, function or class attributes, mutated mutable defaults, memoised mutable results): the conversion is not history-dependent.",
+     "test of its name element (the 'documents only a return value' crash). (COORD) the scanners and the writer never cut a docstring at a position that was measured on a stripped / case-folded / otherwise length-changed copy of it. (DET-3, scoped) no function on this property's code path writes state that outlives the call (module globals/objects, function or class attributes, mutated mutable defaults, memoised mutable results): the conversion is not history-dependent.",
      floors={"TABLE-style": 9, "NULL-2": 1},
      technique="constant folding of the repository's token tables and templates; def-use / CFG reachability of a None literal through callee summaries",
      not_decided="IR equality after emit->parse (values); prose that itself contains a marker of another style; exceptions other than the definite None dereference")
@@ -201,12 +203,15 @@ spec("C16", "Bodies carried verbatim",
 
 spec("C17", "Defaults through prose",
      [TB.rule_table_announce, scoped(FA.rule_falsy, "falsy_defaults", "defaults_utils.set_default_doc", "defaults_utils.extract_default", "emitter_utils.interpolate_defaults"),
+      CO.rule_coord,
       det3("defaults", "defaults_utils.set_default_doc", "defaults_utils.extract_default", "emitter_utils.interpolate_defaults")],
-     "Necessary conditions: (TABLE-announce a) the sentence the writer produces contains an announcement the reader looks for; (c) the docstring writer skips writing a default "
+     "Necessary conditions: (COORD) in the reader and the writer of default sentences no position measured on a transformed copy of the prose (strip / casefold / "
+     "replace change lengths; also through a search helper given a normalising callable) is used to cut the original prose, which is how 'removing the sentence leaves the "
+     "surrounding prose unchanged' breaks by a few characters; (TABLE-announce a) the sentence the writer produces contains an announcement the reader looks for; (c) the docstring writer skips writing a default "
      "only when the prose contains something the reader would recognise as an announcement (decided by calling the reader itself, or by substrings that contain an announcement). (DET-3, scoped) no function on this property's code path writes state that outlives the call (module globals/objects, function or class attributes, mutated mutable defaults, memoised mutable results): the conversion is not history-dependent.",
-     floors={"TABLE-announce": 3},
-     technique="constant folding of the announcement tables, guard analysis of the writer",
-     not_decided="the numeric/boolean coercion ladder, end-of-value scan, removal leaving prose unchanged (character-level)")
+     floors={"TABLE-announce": 3, "COORD": 3},
+     technique="constant folding of the announcement tables, guard analysis of the writer, forward dataflow of string-coordinate provenance with callee return summaries",
+     not_decided="the numeric/boolean coercion ladder, end-of-value scan, the arithmetic of the removal offsets themselves (character-level)")
 
 spec("C18", "Wrapping / line length transparent",
      [T.rule_typeflow, T.rule_wrap_last, det3("emit", "emit.docstring", "emit.class_", "emit.function", "emit.argparse_function")],
